@@ -1,5 +1,5 @@
 (** C02 - GC never reclaims or corrupts reachable data: property theorems only. *)
-From ChibiV Require Import C02.Model C02.Spec C02.Proofs Gen.C02_Layout C02.LayoutCheck.
+From ChibiV Require Import C02.Model C02.Spec C02.Proofs C02.Progress Gen.C02_Layout C02.LayoutCheck.
 Local Open Scope Z_scope.
 
 (** sexp_mark (gc.c:256-302) started on a heap with all marks clear marks exactly the objects
@@ -57,3 +57,27 @@ Print Assumptions layout_covers_sexp_fields.
 Theorem layout_slots_inside_object : forallb inside (specs core_layout) = true.
 Proof. exact layout_inside. Qed.
 Print Assumptions layout_slots_inside_object.
+
+(** fuel suffices / the marker terminates: on a well-formed heap (root, reference slots and
+    registered locals are immediates or designate objects; slot ranges lie inside the objects)
+    [mark] returns a heap - no OutOfFuel, no wild pointer, no unknown tag, no slot outside an object. *)
+Theorem mark_fuel_suffices : forall L h root, wf_heap L h root -> exists h', mark L h root = Ok h'.
+Proof. exact mark_succeeds. Qed.
+Print Assumptions mark_fuel_suffices.
+
+(** ... and on ANY heap it never stops for lack of fuel (potential: stack length + unmarked objects) *)
+Theorem mark_terminates : forall L h root, mark L h root <> Err OutOfFuel.
+Proof. exact mark_never_out_of_fuel. Qed.
+Print Assumptions mark_terminates.
+
+(** hence: a collection of a well-formed heap with clear marks succeeds and keeps every reachable object *)
+Theorem gc_total_and_safe : forall L h root, wf_heap L h root -> all_unmarked h ->
+  exists h', (gc L h root = Ok h') /\ (all_unmarked h') /\
+    (forall a, reachable L h root a -> exists o, hfind h a = Some o /\ hfind h' a = Some o).
+Proof. exact gc_total. Qed.
+Print Assumptions gc_total_and_safe.
+
+(** the executable test run on every real heap dump by the correspondence implies the premise above *)
+Theorem heap_ok_implies_wf : forall L h root, heap_ok L h = true -> ptr_ok h root = true -> wf_heap L h root.
+Proof. exact heap_ok_wf. Qed.
+Print Assumptions heap_ok_implies_wf.
